@@ -91,7 +91,7 @@ def _work(task):
     }
 
 
-def analyse_configs(paths, jobs=None, only=None):
+def analyse_configs(paths, jobs=None, only=None, select=None):
     """paths: {cfg: fact file}; one process pool over all (cfg, root) pairs"""
     facts = {c: Facts(p) for c, p in paths.items()}
     tasks = []
@@ -99,6 +99,8 @@ def analyse_configs(paths, jobs=None, only=None):
         ids = [bid for bid in sorted(f.bodies) if roots_mod.is_root(f.bodies[bid])]
         if only:
             ids = [i for i in ids if any(o in i for o in only)]
+        if select is not None:
+            ids = [i for i in ids if select(f.bodies[i])]
         tasks += [(c, i) for i in ids]
     tasks.sort(key=lambda t: -sum(len(b['stmts']) + 1 for b in facts[t[0]].bodies[t[1]].blocks))
     jobs = jobs or min(16, os.cpu_count() or 4)
